@@ -158,6 +158,11 @@ def _int_cells(draw, field, fmt, n):
     candidates += [0, 1, -1, 9, 10, 99, 100, -9, -10, 2 ** 31 - 1, 2 ** 31, -(2 ** 31), -(2 ** 31) - 1]
     picked = draw(st.lists(st.sampled_from(candidates), min_size=n, max_size=n))
     picked += draw(st.lists(st.integers(-10 ** 7, 10 ** 7), min_size=2, max_size=2))
+    # where the range is open, values beyond what fixed-size integers hold must still be accepted
+    if items is None or any(hi is None for _, hi in items):
+        picked += [2 ** 31 - 1, 2 ** 31, 2 ** 63, 10 ** 20]
+    if items is None or any(lo is None for lo, _ in items):
+        picked += [-(2 ** 31), -(2 ** 31) - 1, -(2 ** 63) - 1, -(10 ** 20)]
     cells += [str(v) for v in picked]
     cells += draw(st.lists(st.sampled_from(["abc", "1.5", "1,5", "0x10", "12a", "1e3", "--1", "1-", "-", "٣", "1 2",
                                            "+5", "007", "1_0", " 7", "-0", "NaN"]), min_size=2, max_size=3))
